@@ -135,6 +135,9 @@ where
         tokio::pin!(notified);
         notified.as_mut().enable();
 
+        #[cfg(p2panda_p2panda_verif)]
+        crate::verif_c14::yield_point("task_ready_between_enable_and_check").await;
+
         // Check if an result already exists and return it directly.
         {
             let ready_result = self.ready_result.lock().await;
